@@ -195,14 +195,21 @@ structure Table where
   indexed : List Nat
   deriving Repr
 
+/-- `join_key_as_scalar_index`: a single key column with a scalar index -/
+def hasKeyIndex (t : Table) (cfg : MergeCfg) : Bool :=
+  match cfg.on with
+  | [c] => t.indexed.contains c
+  | _ => false
+
 /-- `can_use_create_plan`: the v2 plan needs when_matched ≠ DoNothing, no usable index on the key, a full-schema source
     and when_not_matched_by_source = Keep -/
 def mergePath (t : Table) (cfg : MergeCfg) : Path :=
   let full := cfg.cols == List.range t.width
-  let hasIndex := match cfg.on with
-    | [c] => t.indexed.contains c
-    | _ => false
-  if cfg.m ≠ .nothing ∧ (!cfg.useIndex || !hasIndex) ∧ full ∧ cfg.ns = .keep then .v2 else .merger
+  if cfg.m ≠ .nothing ∧ (!cfg.useIndex || !hasKeyIndex t cfg) ∧ full ∧ cfg.ns = .keep then .v2 else .merger
+
+/-- `create_joined_stream`: the Merger joins through the index (MapIndexExec + TakeExec) instead of a full scan -/
+def indexedJoin (t : Table) (cfg : MergeCfg) : Bool :=
+  mergePath t cfg == .merger && decide (cfg.ns = .keep) && cfg.useIndex && hasKeyIndex t cfg
 
 def condCols : Matched → NotBySrc → Nat → List Nat → Bool
   | m, ns, k, cols =>
@@ -219,7 +226,7 @@ def mergeCheck (t : Table) (cfg : MergeCfg) : Option String :=
   if cfg.on.isEmpty then some "invalid_input"
   else if !cfg.insert ∧ cfg.m = .nothing ∧ cfg.ns = .keep then some "invalid_input"
   else if !(cfg.cols.all (· < k)) then some "invalid_input"
-  else if !(cfg.on.all cfg.cols.contains) then some "invalid_input"
+  else if !(cfg.on.all cfg.cols.contains) then some (if indexedJoin t cfg then "other" else "invalid_input")
   else if !condCols cfg.m cfg.ns k cfg.cols then some "invalid_input"
   else if cfg.cols.length < k ∧ cfg.ns ≠ .keep then some "other"
   else none
